@@ -17,7 +17,7 @@ package scanner
 //@ pred isSingle(t int) = t == 10 || t == 11
 //@ pred validEv(t int) = 0 <= t && t <= 13
 
-//@ pred StepLink(s *Scanner) = open(s.step) == s.open && s.curIndex - s.lastEnd >= back(s.step) && (strict(s.step) == 1 ==> s.openBegin < s.curIndex)
+//@ pred StepLink(s *Scanner) = (open(s.step) == 1 ==> s.curIndex - s.openBegin == len(spell(s.step))) && open(s.step) == s.open && s.curIndex - s.lastEnd >= back(s.step) && (strict(s.step) == 1 ==> s.openBegin < s.curIndex)
 //@ pred StackWF(s *Scanner) = s.step != nil && need(s.step) <= len(s.stepStack) && (kw(s.step) == 1 ==> s.lastEnd >= 0)
 //@     && (forall k :: 0 <= k && k < len(s.stepStack) ==> s.stepStack[k] != nil && need(s.stepStack[k]) <= k && open(s.stepStack[k]) == 0 && back(s.stepStack[k]) <= 1 && strict(s.stepStack[k]) == 0 && (kw(s.stepStack[k]) == 1 ==> s.lastEnd >= 0))
 
@@ -37,7 +37,7 @@ package scanner
 //@ pred DataWF(s *Scanner) = s != nil && s.file != nil && s.data == s.file.content && s.dataSize == len(s.data)
 //@     && (forall k :: 0 <= k && k < len(s.lastDirectiveParameters) ==> LexemeWF(s.lastDirectiveParameters[k]))
 
-//@ pred LexemeWF(l *Lexeme) = l != nil && l.file != nil && l.begin <= l.end && l.end < len(l.file.content)
+//@ pred LexemeWF(l *Lexeme) = l != nil && l.file != nil && l.begin <= l.end + 1 && l.end < len(l.file.content)
 
 //@ pred ScannerInv(s *Scanner) = DataWF(s) && StackWF(s) && StepLink(s) && EventWF(s) && s.lastEnd < s.curIndex && 0 - 1 <= s.lastEnd && (s.open != 0 ==> s.openBegin <= s.curIndex && s.lastEnd < s.openBegin)
 
@@ -197,6 +197,7 @@ package scanner
 //@   requires need(self) <= len(s.stepStack) && open(self) == s.open && (kw(self) == 1 ==> s.lastEnd >= 0)
 //@   requires s.curIndex - s.lastEnd >= back(self) && (strict(self) == 1 ==> s.openBegin < s.curIndex)
 //@   requires s.step == self || alias(s.step) == fnid(self)
+//@   requires open(self) == 1 ==> s.curIndex - s.openBegin == len(spell(self))
 //@   modifies s.step, s.stepStack, s.finds, s.curIndex, s.open, s.openBegin, s.lastEnd
 //@   ensures ret == nil ==> DataWF(s)
 //@   ensures ret == nil ==> StackWF(s)
@@ -204,6 +205,10 @@ package scanner
 //@   ensures ret == nil ==> EventWF(s)
 //@   ensures ret == nil ==> s.lastEnd <= s.curIndex && 0 - 1 <= s.lastEnd && s.curIndex <= s.dataSize && (s.open != 0 ==> s.openBegin <= s.curIndex + 1 && s.lastEnd < s.openBegin)
 //@   ensures [C02] ret != nil ==> ret.file == s.file && ret.index <= s.dataSize
+//@   ensures [C14] ret == nil && s.curIndex < s.dataSize && open(s.step) == 1 ==> s.curIndex + 1 - s.openBegin == len(spell(s.step))
+//@   ensures [C14] ret == nil && old(s.open) != 1 && s.open == 1 ==> spell(s.step) == startCls(c) && s.openBegin == old(s.curIndex) && s.curIndex == old(s.curIndex)
+//@   ensures [C14] ret == nil && open(self) == 1 && s.open == 1 ==> spell(s.step) == spell(self) + cls(c, self) && s.curIndex == old(s.curIndex) && s.openBegin == old(s.openBegin)
+//@   ensures [C14] ret == nil && open(self) == 1 && s.open != 1 ==> isKeywordWord(spell(self) + cls(c, self)) && s.lastEnd == old(s.curIndex)
 
 //@ func (*Scanner).endCommentLine
 //@   inline
@@ -256,3 +261,67 @@ package scanner
 //@ table alias(stepFunc) int : default=0, stateRoot=stateExpectKeyword, stateCommentStarted=stateSingleComment, stateCommentDouble=stateSingleComment
 //@ table alias(stepFunc) int : stateHeaderBody=stateJSchema, stateParamsBody=stateJSchema, statePathBody=stateJSchema, stateQueryBodyOrKeyword=stateJSchema, stateResultBody=stateJSchema
 //@ table alias(stepFunc) int : stateRequestBody=stateExpectKeyword, stateResponseBody=stateExpectKeyword
+
+// ---------------------------------------------------------------- lexeme construction and the scan loop (C14)
+
+//@ pred lexTypeOf(t int) = t <= 1 ? 0 : (t <= 3 ? 1 : (t <= 5 ? 2 : (t <= 7 ? 3 : (t <= 9 ? 5 : (t == 10 ? 6 : (t == 11 ? 7 : 8))))))
+
+//@ func (*Scanner).processLexemeEvent
+//@   tag C01 C14
+//@   requires s != nil && len(s.stack) <= 1 && validEv(lexEvent.type_)
+//@   requires isBegin(lexEvent.type_) ==> len(s.stack) == 0
+//@   requires isEnd(lexEvent.type_) ==> len(s.stack) == 1 && s.stack[0].type_ + 1 == lexEvent.type_
+//@   modifies s.stack
+//@   ensures ret1 == nil
+//@   ensures isBegin(lexEvent.type_) ==> ret0 == nil && len(s.stack) == 1 && s.stack[0] == lexEvent
+//@   ensures isEnd(lexEvent.type_) ==> ret0 != nil && len(s.stack) == 0 && ret0.begin == old(s.stack[0].position) && ret0.end == lexEvent.position
+//@             && ret0.file == s.file && ret0.type_ == lexTypeOf(lexEvent.type_)
+//@   ensures isSingle(lexEvent.type_) ==> ret0 != nil && len(s.stack) == old(len(s.stack)) && ret0.begin == lexEvent.position && ret0.end == lexEvent.position
+//@             && ret0.file == s.file && ret0.type_ == lexTypeOf(lexEvent.type_)
+//@   ensures isSingle(lexEvent.type_) && old(len(s.stack)) == 1 ==> s.stack[0] == old(s.stack[0])
+
+//@ pred NextInv(s *Scanner) = DataWF(s) && StackWF(s) && EventWF(s) && 0 - 1 <= s.lastEnd && s.curIndex <= s.dataSize + 1
+//@     && (s.curIndex <= s.dataSize ==> StepLink(s) && s.lastEnd < s.curIndex && (s.open != 0 ==> s.openBegin <= s.curIndex && s.lastEnd < s.openBegin))
+
+//@ func (*Scanner).Next
+//@   tag C01 C14 C02
+//@   requires NextInv(s)
+//@   modifies s.step, s.stepStack, s.finds, s.stack, s.curIndex, s.open, s.openBegin, s.lastEnd, s.lastDirectiveParameters
+//@   ensures ret1 == nil ==> NextInv(s)
+//@   ensures [C14] ret0 != nil ==> ret1 == nil && LexemeWF(ret0) && ret0.file == s.file
+//@   ensures [C02] ret1 != nil ==> ret0 == nil && ret1.file == s.file && ret1.index <= s.dataSize
+//@   loop 1 invariant NextInv(s)
+//@   loop 1 frame s
+//@   loop 2 frame s
+//@   loop 2 invariant DataWF(s) && StackWF(s) && EventWF(s) && 0 - 1 <= s.lastEnd && s.curIndex <= s.dataSize + 1
+//@   loop 2 invariant s.curIndex <= s.dataSize ==> StepLink(s) && s.lastEnd < s.curIndex && (s.open != 0 ==> s.openBegin <= s.curIndex && s.lastEnd < s.openBegin)
+//@   loop 2 invariant len(s.finds) + rangeindex + 1 == rangelen && 0 - 1 <= rangeindex
+//@   loop 2 decreases rangelen - rangeindex
+
+// spell(f): the keyword text consumed when keyword state f runs ("#" stands for a digit of a response code)
+//@ table spell(stepFunc) string : default=""
+//@ table spell(stepFunc) string : stateB="B", stateBa="Ba", stateBas="Bas", stateBase="Base", stateBaseU="BaseU", stateBaseUr="BaseUr"
+//@ table spell(stepFunc) string : stateBo="Bo", stateBod="Bod", stateD="D", stateDE="DE", stateDEL="DEL", stateDELE="DELE"
+//@ table spell(stepFunc) string : stateDELET="DELET", stateDe="De", stateDes="Des", stateDesc="Desc", stateDescr="Descr", stateDescri="Descri"
+//@ table spell(stepFunc) string : stateDescrip="Descrip", stateDescript="Descript", stateDescripti="Descripti", stateDescriptio="Descriptio", stateE="E", stateEN="EN"
+//@ table spell(stepFunc) string : stateENU="ENU", stateG="G", stateGE="GE", stateH="H", stateHe="He", stateHea="Hea"
+//@ table spell(stepFunc) string : stateHead="Head", stateHeade="Heade", stateHeader="Header", stateI="I", stateIN="IN", stateINC="INC"
+//@ table spell(stepFunc) string : stateINCL="INCL", stateINCLU="INCLU", stateINCLUD="INCLUD", stateINF="INF", stateJ="J", stateJS="JS"
+//@ table spell(stepFunc) string : stateJSI="JSI", stateJSIG="JSIG", stateJSIGH="JSIGH", stateM="M", stateMA="MA", stateMAC="MAC"
+//@ table spell(stepFunc) string : stateMACR="MACR", stateMe="Me", stateMet="Met", stateMeth="Meth", stateMetho="Metho", stateP="P"
+//@ table spell(stepFunc) string : statePA="PA", statePAS="PAS", statePAST="PAST", statePAT="PAT", statePATC="PATC", statePO="PO"
+//@ table spell(stepFunc) string : statePOS="POS", statePU="PU", statePa="Pa", statePar="Par", statePara="Para", stateParam="Param"
+//@ table spell(stepFunc) string : statePat="Pat", statePr="Pr", statePro="Pro", stateProt="Prot", stateProto="Proto", stateProtoc="Protoc"
+//@ table spell(stepFunc) string : stateProtoco="Protoco", stateQ="Q", stateQu="Qu", stateQue="Que", stateQuer="Quer", stateR="R"
+//@ table spell(stepFunc) string : stateRe="Re", stateReq="Req", stateRequ="Requ", stateReque="Reque", stateReques="Reques", stateRes="Res"
+//@ table spell(stepFunc) string : stateResponseKeywordSecond="##", stateResponseKeywordStarted="#", stateResu="Resu", stateResul="Resul", stateS="S", stateSe="SE"
+//@ table spell(stepFunc) string : stateSer="SER", stateServ="SERV", stateServe="SERVE", stateT="T", stateTA="TA", stateTa="Ta"
+//@ table spell(stepFunc) string : stateTag="Tag", stateTi="Ti", stateTit="Tit", stateTitl="Titl", stateTy="TY", stateTyp="TYP"
+//@ table spell(stepFunc) string : stateU="U", stateUR="UR", stateV="V", stateVe="Ve", stateVer="Ver", stateVers="Vers"
+//@ table spell(stepFunc) string : stateVersi="Versi", stateVersio="Versio"
+//@ table rc(stepFunc) int : default=0, stateResponseKeywordStarted=1, stateResponseKeywordSecond=1
+//@ pred cls(c byte, f stepFunc) = (rc(f) == 1 && 48 <= c && c <= 57) ? "#" : chr(c)
+//@ pred startCls(c byte) = (49 <= c && c <= 53) ? "#" : chr(c)
+//@ pred isKeywordWord(w string) = w == "JSIGHT" || w == "INFO" || w == "Title" || w == "Version" || w == "Description" || w == "SERVER" || w == "BaseUrl" || w == "URL"
+//@     || w == "GET" || w == "POST" || w == "PUT" || w == "PATCH" || w == "DELETE" || w == "Body" || w == "Request" || w == "Path" || w == "Headers" || w == "Query"
+//@     || w == "TYPE" || w == "ENUM" || w == "MACRO" || w == "PASTE" || w == "INCLUDE" || w == "Protocol" || w == "Method" || w == "Params" || w == "Result" || w == "TAG" || w == "Tags" || w == "###"
